@@ -110,6 +110,15 @@ impl ast::Visit for Visitor<'_, '_> {
                 }
             },
 
+            // the initializer of a const must have the declared type
+            ast::Item::ConstVar { ty_keyword, vars } => {
+                for sp_pat![(var, expr)] in vars {
+                    if let Err(e) = self.check_single_var_decl(*ty_keyword, var, Some(expr)) {
+                        self.errors.set(e);
+                    }
+                }
+            },
+
             _ => ast::walk_item(self, item),
         }
     }
